@@ -516,6 +516,7 @@ func runC16(r *Run) {
 	if nOb < 15 {
 		fail("C16.journalled-write: only %d journalled writes found (expected >= 20)", nOb)
 	}
+	checkRevertScalars(r, m)
 	checkIndexMaps(r, m)
 	checkAdapterSpecifics(r)
 }
@@ -824,6 +825,47 @@ func checkAdapterSpecifics(r *Run) {
 			"an account is considered empty although "+name+" does not hold: Finalise deletes a live account (or EIP-158 clearing differs from the reference)", p.pos(em.Pos()))
 	}
 
+	// IsZeroAmount decides on the whole number (Cmp / Sign), not on a 64-bit view of it
+	iz := p.MustFn("vm.IsZeroAmount")
+	fullWidth := func(v ssa.Value) int {
+		x, flip := stripNot(v)
+		bo, ok := x.(*ssa.BinOp)
+		if !ok || (bo.Op != token.EQL && bo.Op != token.NEQ) {
+			return 0
+		}
+		c, ok := bo.X.(*ssa.Call)
+		k, isK := intConst(bo.Y)
+		if !ok || !isK || k != 0 {
+			return 0
+		}
+		good := false
+		switch calleeName(c) {
+		case "(*math/big.Int).Sign":
+			good = c.Call.Args[0] == ssa.Value(iz.Params[0])
+		case "(*math/big.Int).Cmp":
+			if z, isC := c.Call.Args[1].(*ssa.Call); isC && calleeName(z) == "math/big.NewInt" {
+				if kk, isKK := intConst(z.Call.Args[0]); isKK && kk == 0 {
+					good = c.Call.Args[0] == ssa.Value(iz.Params[0])
+				}
+			}
+		}
+		if !good {
+			return 0
+		}
+		pol := +1
+		if bo.Op == token.NEQ {
+			pol = -1
+		}
+		if flip {
+			pol = -pol
+		}
+		return pol
+	}
+	izEdges := condEdges(iz, func(c ssa.Value, _ *ssa.If) int { return fullWidth(c) })
+	okIZ := !boolResultMayBeTrueWithout(iz, izEdges, func(v ssa.Value) bool { return fullWidth(v) > 0 })
+	r.Check(okIZ, "C16.empty", fname(iz), "zero means the whole number is zero", "true only behind Cmp(amount, 0) == 0 / Sign() == 0",
+		"IsZeroAmount answers true for a non-zero amount (e.g. it looks at the low 64 bits only): an account holding k*2^64 counts as empty, a zero-value call touches it and Finalise deletes it together with its balance", p.pos(iz.Pos()))
+
 	// Snapshot / RevertToSnapshot
 	sn := p.MustFn("(*vm.CommitStateDB).Snapshot")
 	okS := false
@@ -959,4 +1001,100 @@ func boolResultMayBeTrueWithout(fn *ssa.Function, edges []Edge, isTest func(ssa.
 		}
 	}
 	return false
+}
+
+// checkRevertScalars: a counter or flag that a revert restores on some path is restored on every path of that revert,
+// except the no-op escapes (object or table entry not found).
+func checkRevertScalars(r *Run, m *journalModel) {
+	p := r.P
+	isBasicField := func(ins ssa.Instruction) (fieldID, bool) {
+		st, ok := ins.(*ssa.Store)
+		if !ok {
+			return "", false
+		}
+		fa, ok := st.Addr.(*ssa.FieldAddr)
+		if !ok {
+			return "", false
+		}
+		if _, isBasic := st.Val.Type().Underlying().(*types.Basic); !isBasic {
+			return "", false
+		}
+		w := writtenFields0(ins)
+		if len(w) == 0 {
+			return "", false
+		}
+		_ = fa
+		return w[0], true
+	}
+	// raw basic fields written anywhere inside a vm function (with its vm callees, exempt ones excluded)
+	memo := map[*ssa.Function]map[fieldID]bool{}
+	var writes func(f *ssa.Function) map[fieldID]bool
+	writes = func(f *ssa.Function) map[fieldID]bool {
+		if w, ok := memo[f]; ok {
+			return w
+		}
+		res := map[fieldID]bool{}
+		memo[f] = res
+		vmBodySkip(f, func(g *ssa.Function) bool { _, ex := c16Exempt[fname(g)]; return ex }, func(g *ssa.Function) {
+			allInstrs(g, func(ins ssa.Instruction) {
+				if fld, ok := isBasicField(ins); ok {
+					res[fld] = true
+				}
+			})
+		})
+		return res
+	}
+	n := 0
+	for _, t := range m.entries {
+		rv := m.revert[t]
+		all := writes(rv)
+		var fields []string
+		for f := range all {
+			fields = append(fields, string(f))
+		}
+		sort.Strings(fields)
+		for _, fs := range fields {
+			f := fieldID(fs)
+			n++
+			// escapes: "not found" edges
+			escapes := condEdges(rv, func(cond ssa.Value, _ *ssa.If) int {
+				if pol := boolCond(cond, func(y ssa.Value) bool {
+					e, ok := y.(*ssa.Extract)
+					if !ok || e.Index != 1 {
+						return false
+					}
+					_, isLk := e.Tuple.(*ssa.Lookup)
+					return isLk
+				}); pol != 0 {
+					return -pol // the not-found edge
+				}
+				return nilCond(cond, func(y ssa.Value) bool { _, isPtr := y.Type().Underlying().(*types.Pointer); return isPtr })
+			})
+			barrier := func(ins ssa.Instruction) bool {
+				if fld, ok := isBasicField(ins); ok && fld == f {
+					return true
+				}
+				if sc := staticCallee(ins); sc != nil && fnPkg(sc) != nil && fnPkg(sc).Path() == vmPkg && sc.Blocks != nil {
+					if _, ex := c16Exempt[fname(sc)]; !ex && writes(sc)[f] {
+						return true
+					}
+				}
+				return false
+			}
+			first := rv.Blocks[0].Instrs[0]
+			bad := false
+			if !barrier(first) {
+				for ins := range reachFromInstr(first, escapes, barrier) {
+					if _, isRet := ins.(*ssa.Return); isRet {
+						bad = true
+					}
+				}
+			}
+			r.Check(!bad, "C16.revert-complete", fname(rv), string(f)+" is restored on every path of the undo", "no return without writing it, except when the object / entry is not found",
+				"undoing "+t.Obj().Name()+" restores "+string(f)+" on some paths only: after a revert through the other path the counter / flag keeps the value of the undone operation", p.pos(rv.Pos()))
+		}
+	}
+	if n < 5 {
+		fail("C16.revert-complete: only %d scalar fields restored by reverts (expected >= 6)", n)
+	}
 }
